@@ -172,7 +172,7 @@ class C14(Prop):
             '(also folded Cookie / X-Custom, whose values are echoed) and long (64-190 characters) ones x '
             'no body/Content-Length/chunked with extensions and trailers x content types; controllers: hello, echo, one that '
             'raises, one that copies a request header into the response, one whose response cannot be encoded) changed by 1-3 of '
-            '43 mutation operators (request line, headers, '
+            '45 mutation operators (request line, headers, '
             'oversized parts, Content-Length, chunk framing, backslash escapes, NUL, high bytes, TLS/SSL hellos, truncation, '
             'generic byte edits; NUL / escaped CR LF NUL (hex, octal) / escapes outside latin-1 / raw high bytes on a folded '
             'continuation line of Cookie, Host (+ non-canonical path), X-Custom or any header; the same fragments at or within 3 '
@@ -182,6 +182,7 @@ class C14(Prop):
             'the hostile traffic; every delivery under a CPU-time watchdog (20 s, case repeated with 40 s before clause '
             'loop-blocked is reported); exhaustive part: every truncation of 27 fixed requests (one read + disconnect) and every '
             'two-read split of them with the disconnect after the first part; '
+            'reference readings (plain shapes only, RFC 7230) decide which messages MUST be refused: method not a token, version not HTTP/d.d, header line without colon or with a non-token name, Content-Length not 1*DIGIT or conflicting, chunk-size not 1*HEXDIG; a complete body-less header block must be answered (clause stalled); '
             'non-trivial = the bytes differ from the well-formed seed and the connection did not get a 200 as its first '
             'answer (4xx/5xx/3xx, nothing, or plain close); distinct = distinct spec hash')
     assumptions = (
